@@ -27,6 +27,10 @@ VARIANTS = {
     "asan-ndebug": ("gcc", ["-O1", "-g", "-DNDEBUG"] + SAN, "std", SAN),
     # coap_subscribe.c must keep calling plain stdio symbols so that ld --wrap sees them
     "persist": ("gcc", ["-O1", "-g", "-fno-builtin", "-U_FORTIFY_SOURCE"] + SAN, "std", SAN),
+    # thread harness: ASan only (UBSan's function instrumentation is not needed), asserts live
+    "ts": ("gcc", ["-O1", "-g", "-fsanitize=address", "-fno-omit-frame-pointer"], "std", ["-fsanitize=address"]),
+    "ts-ndebug": ("gcc", ["-O1", "-g", "-DNDEBUG", "-fsanitize=address", "-fno-omit-frame-pointer"], "std", ["-fsanitize=address"]),
+    "tsan": ("clang", ["-O1", "-g", "-fsanitize=thread", "-fno-omit-frame-pointer"], "std", ["-fsanitize=thread"]),
 }
 
 LIB_SKIP = {"coap_io_contiki.c", "coap_io_lwip.c", "coap_io_riot.c", "coap_mbedtls.c",
@@ -151,6 +155,37 @@ def _lib(variant, cfgdir_override=None, extra_cflags=(), tag=None):
     log("libcoap %s built in %.1fs -> %s" % (name, time.time() - t0, out))
     _prune(name)
     return out, inc
+
+
+def cmake_cfg(extra_args=(), tag="cmakecfg"):
+    """Runs the repository's own CMake configure step on the current tree (configure only, nothing is compiled)
+    and returns a directory with the coap_config.h / coap3/coap_defines.h it emitted."""
+    ins = [os.path.join(REPO, f) for f in ("CMakeLists.txt", "cmake_coap_config.h.in", "cmake_coap_defines.h.in")]
+    for root, _, files in os.walk(os.path.join(REPO, "cmake")):
+        ins += [os.path.join(root, f) for f in files]
+    key = _hash_files(ins, " ".join(extra_args).encode())
+    out = os.path.join(BUILD, "%s-%s" % (tag, key))
+    with _locked(tag):
+        if os.path.exists(os.path.join(out, "coap3", "coap_defines.h")):
+            os.utime(out)
+            return out
+        t0 = time.time()
+        scratch = "/dev/shm/verif-cmake-%d" % os.getpid()
+        shutil.rmtree(scratch, ignore_errors=True)
+        try:
+            rc, txt = _run(["cmake", "-G", "Ninja", "-S", REPO, "-B", scratch, "-DENABLE_DOCS=OFF", "-DENABLE_EXAMPLES=OFF",
+                            "-DENABLE_TESTS=OFF"] + list(extra_args))
+            if rc != 0:
+                sys.stderr.write(txt)
+                raise SystemExit("BUILD-FAILED cmake configure")
+            os.makedirs(os.path.join(out, "coap3"), exist_ok=True)
+            shutil.copy(os.path.join(scratch, "coap_config.h"), os.path.join(out, "coap_config.h"))
+            shutil.copy(os.path.join(scratch, "include", "coap3", "coap_defines.h"), os.path.join(out, "coap3", "coap_defines.h"))
+        finally:
+            shutil.rmtree(scratch, ignore_errors=True)
+        log("cmake configure (%s) in %.1fs -> %s" % (" ".join(extra_args), time.time() - t0, out))
+        _prune(tag)
+    return out
 
 
 COMMON_SRCS = ["vx/vx.c"]
